@@ -12,6 +12,7 @@ import (
 	"os"
 	"regexp"
 	"runtime"
+	"sort"
 	"strings"
 	"sync"
 	"sync/atomic"
@@ -38,6 +39,11 @@ type env struct {
 	aborted bool   // a stall was observed: the process may be wedged, stop the batch
 	stallAt string // description of the stall
 	waitLim time.Duration
+	// earlyLim: after this long the structural stall analysis runs once; only a
+	// structural verdict (wedged) ends the wait early, otherwise waiting continues
+	earlyLim     time.Duration
+	cachedStall  string
+	cachedDetail map[string]any
 }
 
 func (e *env) tick() uint64 { return e.clock.Add(1) }
@@ -290,7 +296,10 @@ func (c *client) snapshot(op *opRec) []*reply {
 // waitCond waits until cond (evaluated under the client lock) holds. The limit is a
 // watchdog only: its expiry never decides anything by itself (see stall()).
 func (c *client) waitCond(cond func() bool) bool {
-	deadline := time.Now().Add(c.e.waitLim)
+	start := time.Now()
+	deadline := start.Add(c.e.waitLim)
+	checked := false
+	poll := 20 * time.Millisecond
 	for {
 		c.mu.Lock()
 		ok := cond()
@@ -299,15 +308,53 @@ func (c *client) waitCond(cond func() bool) bool {
 		if ok {
 			return true
 		}
+		if c.e.early(start, &checked) {
+			return false
+		}
 		rem := time.Until(deadline)
 		if rem <= 0 {
 			return false
 		}
+		if rem > poll {
+			rem = poll
+		}
 		select {
 		case <-ch:
+			continue
 		case <-time.After(rem):
 		}
+		// nothing arrived for a while: if nothing works on behalf of the API any
+		// more, nothing will ever arrive (the condition is re-checked first: a
+		// handler's last act is its reply)
+		if _, act := handlerState(dumpGoroutines()); len(act) == 0 {
+			c.mu.Lock()
+			ok := cond()
+			c.mu.Unlock()
+			if ok {
+				return true
+			}
+			c.e.cachedStall, c.e.cachedDetail = "idle", map[string]any{}
+			return false
+		}
+		if poll < 500*time.Millisecond {
+			poll *= 2
+		}
 	}
+}
+
+// early runs the structural analysis once when a wait has lasted earlyLim. It reports
+// true only if the process is structurally wedged (then waiting longer is pointless).
+func (e *env) early(start time.Time, checked *bool) bool {
+	if *checked || time.Since(start) < e.earlyLim {
+		return false
+	}
+	*checked = true
+	v, d := e.analyse()
+	if v == "wedged" {
+		e.cachedStall, e.cachedDetail = v, d
+		return true
+	}
+	return false
 }
 
 // waitCondShort is a fast path before polling for idleness; its expiry means nothing.
@@ -414,22 +461,23 @@ func dumpGoroutines() []gor {
 
 const apiRecv = "portbase/api.(*DatabaseAPI)."
 
-// handlerState classifies the goroutines of the API handlers: parked = waiting in
-// processSub's select for the next notification (an established subscription);
-// active = any other goroutine inside a DatabaseAPI method.
+// handlerState classifies the goroutines that work on behalf of the API connection:
+// parked = waiting in processSub's select for the next notification (an established
+// subscription); active = any other goroutine inside a DatabaseAPI method, a storage
+// query executor feeding one, or a privileged writer of the harness inside portbase.
 func handlerState(gs []gor) (parked int, active []gor) {
 	for _, g := range gs {
-		inAPI := false
+		rel := false
 		first := ""
 		for _, f := range g.Frames {
-			if strings.Contains(f, apiRecv) {
-				inAPI = true
+			if strings.Contains(f, apiRecv) || strings.Contains(f, ".queryExecutor") || strings.Contains(f, "main.(*seq).stepConcurrent.func") {
+				rel = true
 			}
 			if first == "" && !strings.HasPrefix(f, "runtime.") {
 				first = f
 			}
 		}
-		if !inAPI {
+		if !rel {
 			continue
 		}
 		if strings.HasPrefix(g.State, "select") && strings.Contains(first, apiRecv+"processSub") {
@@ -441,17 +489,19 @@ func handlerState(gs []gor) (parked int, active []gor) {
 	return
 }
 
-// waitIdle polls until no API handler goroutine is active. It returns the number of
-// parked subscription loops. ok=false: the watchdog expired (see stall()).
+// waitIdle polls until no goroutine works on behalf of the API any more. It returns
+// the number of parked subscription loops. ok=false: the watchdog expired (see stall()).
 func (e *env) waitIdle() (parked int, ok bool) {
-	deadline := time.Now().Add(e.waitLim)
+	start := time.Now()
+	deadline := start.Add(e.waitLim)
+	checked := false
 	sleep := 50 * time.Microsecond
 	for {
 		p, act := handlerState(dumpGoroutines())
 		if len(act) == 0 {
 			return p, true
 		}
-		if time.Now().After(deadline) {
+		if time.Now().After(deadline) || e.early(start, &checked) {
 			return p, false
 		}
 		time.Sleep(sleep)
@@ -461,67 +511,146 @@ func (e *env) waitIdle() (parked int, ok bool) {
 	}
 }
 
-var lockWait = regexp.MustCompile(`sync\.\(\*(RW)?Mutex\)\.(R)?Lock|sync\.runtime_Semacquire`)
+var blockedState = regexp.MustCompile(`^(select|chan receive|chan send|sync\.Mutex\.Lock|sync\.RWMutex\.R?Lock|semacquire|sync\.Cond\.Wait|sync\.WaitGroup\.Wait)`)
+var lockState = regexp.MustCompile(`^(sync\.Mutex\.Lock|sync\.RWMutex\.R?Lock)`)
+
+// portbaseGoroutines returns every goroutine with a portbase frame except parked
+// subscription loops, keyed by goroutine ID.
+func portbaseGoroutines(gs []gor) map[string]gor {
+	m := map[string]gor{}
+	for _, g := range gs {
+		pb := false
+		first := ""
+		for _, f := range g.Frames {
+			if strings.Contains(f, "safing/portbase/") {
+				pb = true
+			}
+			if first == "" && !strings.HasPrefix(f, "runtime.") {
+				first = f
+			}
+		}
+		if !pb || (strings.HasPrefix(g.State, "select") && strings.Contains(first, apiRecv+"processSub")) {
+			continue
+		}
+		m[g.ID] = g
+	}
+	return m
+}
 
 // stall is called when a watchdog expired. It decides structurally what happened:
-//   - no handler goroutine is left: whatever was awaited can never arrive ("idle");
-//   - handler goroutines exist and two dumps taken apart show the very same goroutines
-//     blocked in lock acquisitions with identical stacks: the process is wedged;
+//   - nothing works on behalf of the API any more: whatever was awaited can never
+//     arrive ("idle"), the automaton reports what is missing;
+//   - three goroutine dumps taken 3 s apart show the very same set of goroutines inside
+//     portbase, every one of them blocked (none running or runnable) with an identical
+//     stack, and at least one of them waiting for a mutex: nobody is left who could
+//     release it - the process is wedged;
 //   - anything else: inconclusive (slow machine).
 func (e *env) stall(what string) (verdict string, detail map[string]any) {
+	if e.cachedStall != "" {
+		verdict, detail = e.cachedStall, e.cachedDetail
+		e.cachedStall, e.cachedDetail = "", nil
+	} else {
+		verdict, detail = e.analyse()
+	}
+	detail["awaited"] = what
+	return verdict, detail
+}
+
+func (e *env) analyse() (verdict string, detail map[string]any) {
+	what := ""
 	g1 := dumpGoroutines()
-	_, a1 := handlerState(g1)
-	if len(a1) == 0 {
+	if _, a := handlerState(g1); len(a) == 0 {
 		return "idle", map[string]any{"awaited": what}
 	}
-	time.Sleep(3 * time.Second)
-	g2 := dumpGoroutines()
-	_, a2 := handlerState(g2)
-	if len(a2) == 0 {
-		return "idle-late", map[string]any{"awaited": what}
-	}
-	sig := func(gs []gor) map[string]string {
-		m := map[string]string{}
-		for _, g := range gs {
-			m[g.ID] = strings.Join(g.Frames, "<")
+	dumps := [][]gor{g1}
+	for i := 0; i < 2; i++ {
+		time.Sleep(3 * time.Second)
+		g := dumpGoroutines()
+		if _, a := handlerState(g); len(a) == 0 {
+			return "idle-late", map[string]any{"awaited": what}
 		}
-		return m
+		dumps = append(dumps, g)
 	}
-	s1, s2 := sig(a1), sig(a2)
-	same := len(s1) == len(s2)
-	allLock := true
-	var blockedAt []string
-	for id, fr := range s2 {
-		if s1[id] != fr {
+	base := portbaseGoroutines(dumps[0])
+	same, allBlocked, locks := true, true, 0
+	for _, d := range dumps[1:] {
+		m := portbaseGoroutines(d)
+		if len(m) != len(base) {
 			same = false
 		}
-	}
-	for _, g := range a2 {
-		if len(g.Frames) == 0 || !lockWait.MatchString(strings.Join(g.Frames[:min(4, len(g.Frames))], " ")) {
-			allLock = false
-		}
-		for _, f := range g.Frames {
-			if strings.Contains(f, "safing/portbase") {
-				blockedAt = append(blockedAt, strings.TrimPrefix(f, "github.com/safing/portbase/"))
-				break
+		for id, g := range m {
+			b, ok := base[id]
+			if !ok || strings.Join(b.Frames, "<") != strings.Join(g.Frames, "<") {
+				same = false
 			}
 		}
 	}
-	var texts []string
-	for _, g := range g2 {
-		if strings.Contains(g.Text, "safing/portbase") {
-			t := g.Text
-			if len(t) > 1800 {
-				t = t[:1800]
-			}
-			texts = append(texts, t)
+	pkgs := map[string]bool{}
+	shown := map[string]bool{}
+	var texts, notBlocked []string
+	last := portbaseGoroutines(dumps[2])
+	ids := sortedKeys(last)
+	// goroutines inside a storage backend first (they hold or want the storage lock:
+	// the cycle runs through them), exclusive waits before read-lock waits, which are
+	// usually victims queued behind a waiting writer
+	rank := func(g gor) int {
+		r := 4
+		if strings.Contains(strings.Join(g.Frames, " "), "database/storage/") {
+			r = 0
 		}
-		if len(texts) >= 12 {
-			break
+		switch {
+		case strings.HasPrefix(g.State, "sync.Mutex.Lock"):
+		case strings.HasPrefix(g.State, "sync.RWMutex.Lock"):
+			r++
+		default:
+			r += 2
+		}
+		return r
+	}
+	sort.SliceStable(ids, func(i, j int) bool { return rank(last[ids[i]]) < rank(last[ids[j]]) })
+
+	for _, id := range ids {
+		g := last[id]
+		st := g.State
+		if i := strings.Index(st, ","); i > 0 {
+			st = st[:i]
+		}
+		if !blockedState.MatchString(st) {
+			allBlocked = false
+			notBlocked = append(notBlocked, st+" "+strings.Join(g.Frames[:min(3, len(g.Frames))], "<"))
+		}
+		if lockState.MatchString(st) {
+			locks++
+			for _, f := range g.Frames {
+				if i := strings.Index(f, "safing/portbase/"); i >= 0 {
+					pk := f[i+len("safing/portbase/"):]
+					if j := strings.Index(pk, "."); j > 0 {
+						pk = pk[:j]
+					}
+					if strings.HasPrefix(pk, "database/storage/") {
+						pkgs[pk] = true
+					}
+				}
+			}
+			fs := strings.Join(g.Frames, "<")
+			if !shown[fs] && len(texts) < 12 {
+				shown[fs] = true
+				t := g.Text
+				if len(t) > 1500 {
+					t = t[:1500]
+				}
+				texts = append(texts, t)
+			}
 		}
 	}
-	detail = map[string]any{"awaited": what, "blocked_in": blockedAt, "goroutines": texts}
-	if same && allLock {
+	var where []string
+	for p := range pkgs {
+		where = append(where, p)
+	}
+	sort.Strings(where)
+	detail = map[string]any{"awaited": what, "lock_waiting_goroutines": locks, "packages": where, "goroutines": texts,
+		"same_stacks": same, "not_blocked": notBlocked}
+	if same && allBlocked && locks > 0 {
 		return "wedged", detail
 	}
 	return "busy", detail
